@@ -323,6 +323,9 @@ class NodeWorld:
         rec["behaviour"] = behaviour
         if behaviour == "raise":
             raise RuntimeError("handler failure injected by the harness")
+        if behaviour == "hold-then-raise":
+            # the handler has handed the request to a worker of its own (the harness answers it later) and then fails
+            raise RuntimeError("handler failure after the request was handed on (injected by the harness)")
         if behaviour == "block-then-hold":
             # a handler of a basic application that takes its time (it runs in the connection's reader thread)
             sk._sim_sleep(app._verif_cfg.get("slow_s", 3))
